@@ -483,7 +483,7 @@ fn main() {
         }
     }
     // deep-lag probes: a leader runs K frames ahead of one or two laggards, who then catch up; repeated
-    for k in [5usize, 31, 32, 33, 63, 64, 65, 127, 128, 129, 300, 65535, 65536, 65537] {
+    for k in [5usize, 31, 32, 33, 63, 64, 65, 127, 128, 129, 300, 1024, 4096, 44100, 48000, 65535, 65536, 65537] {
         for laggards in [1usize, 2] {
             let acts = deep_lag_acts(k, laggards);
             let case = json!({"sys":"bus_deep_lag","k":k,"laggards":laggards});
